@@ -199,11 +199,18 @@ func cmdLiveness(args []string) int {
 			}
 		}
 		faulty := n - len(live)
+		// the timeouts double only up to view 62 (then they saturate): a prefix that left a live node near that view is outside what C05
+		// presupposes (timers base*2^view that let a lagging member catch up).  First version capped the simulated exponent at 40: two
+		// members 20 views apart, both above view 40, then took turns for ever (false alarm in the making, soak seed 107).
+		if vmax+uint64(4*n) >= 60 {
+			cl.close()
+			continue
+		}
 		bound := 0
 		for _, nd := range live {
 			bound += int(vmax-uint64(nd.st.View())) + faulty + 4
 			lr.lastReg[nd.idx] = [2]uint64{nd.regH, nd.regV}
-			lr.armedAt[nd.idx] = -rnd.Float64() * math.Pow(2, float64(minU64(uint64(nd.st.View()), 40)))
+			lr.armedAt[nd.idx] = -rnd.Float64() * math.Pow(2, float64(minU64(uint64(nd.st.View()), 62)))
 		}
 		crashedNames := []string{}
 		for j := range lr.crashed {
@@ -272,7 +279,7 @@ func cmdLiveness(args []string) int {
 				if nd.regCb == nil || uint64(nd.st.Height()) != top {
 					continue
 				}
-				d := lr.armedAt[nd.idx] + math.Pow(2, float64(minU64(nd.regV, 40)))
+				d := lr.armedAt[nd.idx] + math.Pow(2, float64(minU64(nd.regV, 62))) // the real timeout doubles up to view 62 and is constant from there
 				if d < best {
 					best, next = d, nd
 				}
